@@ -1,1 +1,2 @@
 verif_harness(c01_foreach c01_main.cpp c01_wl_a.cpp c01_wl_b.cpp c01_wl_c.cpp c01_wl_d.cpp c01_wl_e.cpp c01_wl_f.cpp c01_wl_g.cpp)
+verif_harness(c01_direct c01_direct.cpp)
